@@ -8,10 +8,22 @@
        happened, and whether f received exactly that call's arguments.
        VARIANT = derived | coll (the emitted code with its hash call replaced by a constant).
        The oracle f of the model is the table call-arguments -> DIRECT.
+   (memre (sig (TY..) NRES) FKIND VARIANT ((ARG..)..) RULES0 (OUTER..)
+          (res ((KEY (INNER..))..) (DIRECT..) (MEM..) ((IDX SAME)..)))
+       a RE-ENTRANT call history: the instrumented f, when its arguments are Equal to the tuple
+       number KEY of the universe ((ARG..)..), calls the memoised function itself on the tuples
+       number INNER.. (in order) and returns a function of its arguments and of the results of
+       those calls.  The rules in `res` are the ones the driver used (rank order: it drops inner
+       calls that would not be well-founded; RULES0 is what the harness proposed); the evaluator
+       checks well-foundedness itself ([rules_wf], proved sound: C18_rules_wf_sound).
+       DIRECT.. = f on every tuple of the universe, computed by the un-memoised recursion;
+       OUTER = the outer calls (tuple numbers), MEM.. = what the memoised function returned on
+       them; then every invocation of f made through the memoised function — outer and inner —
+       in the order f was entered: tuple number, and whether f received exactly that tuple.
    (gen (sig (TY..) NRES) CLASS)
        goderive + go vet on a package that memoises one function of that signature. *)
 From Coq Require Import String.
-From Verif Require Import Base Sexp Go.Ty Go.Val Go.Equal Go.Compare Go.Hash Mem.Model.
+From Verif Require Import Base Sexp Go.Ty Go.Val Go.Equal Go.Compare Go.Hash Mem.Model Mem.Reentrant.
 Open Scope string_scope.
 
 (* ---------- structural identity of values (labels included) ---------- *)
@@ -179,6 +191,91 @@ Definition eval_hist (ps : list ty) (nres : nat) (fkind variant : string)
          v_model := Sym "stuck"; v_tag := tag ++ "/stuck" |}
   end.
 
+(* ---------- re-entrant histories ---------- *)
+Definition parse_idx (e : sexp) : option nat := match e with Num z => Some (Z.to_nat z) | _ => None end.
+Definition parse_rule (e : sexp) : option (nat * list nat) :=
+  match e with
+  | L [Num k; L is] => option_map (pair (Z.to_nat k)) (map_opt parse_idx is)
+  | _ => None
+  end.
+
+Definition eval_re (ps : list ty) (nres : nat) (fkind variant : string)
+    (us : list (list val)) (rules_i : list (nat * list nat)) (outer_i : list nat)
+    (directs mems : list (outcome (list val))) (fcalls : list (nat * bool)) : verdict :=
+  let nu := List.length us in
+  let tup := fun i : nat => nth i us [] in
+  let rules := map (fun r => (tup (fst r), map tup (snd r))) rules_i in
+  let h := map tup outer_i in
+  let keq := args_equal ps in
+  let inner := rule_inner ps rules in
+  let rank := rule_rank ps rules in
+  let coll := String.eqb variant "coll" in
+  let hashr := if coll then (fun _ : val => Ok coll_hash) else (fun k => hashm [] (key_ty ps) k) in
+  (* F: the un-memoised recursion, as observed; f's body given the results of its inner calls *)
+  let ftab := combine us directs in
+  let Fd := f_tab ftab in
+  let fin := fun (a : list val) (rss : list (list val)) =>
+               match all_ret (map Fd (inner a)) with
+               | Some rss0 => if list_eqb vals_eqb rss rss0 then Fd a else Panic
+               | None => Panic
+               end in
+  let fuel := S (S (List.length rules)) in
+  let idx_ok := (forallb (fun i => Nat.ltb i nu) outer_i
+                 && forallb (fun r => Nat.ltb (fst r) nu && forallb (fun i => Nat.ltb i nu) (snd r)) rules_i)%bool in
+  let typed := (forallb (args_typed ps) us && Nat.eqb (List.length directs) nu
+                && Nat.eqb (List.length mems) (List.length outer_i) && idx_ok)%bool in
+  let wf := rules_wf ps rules in
+  let real_calls := map (fun ib => tup (fst ib)) fcalls in
+  let sames := forallb (fun ib => (snd ib && Nat.ltb (fst ib) nu)%bool) fcalls in
+  (* --- specification, from the property text --- *)
+  let respects := forall_pairs (fun p q => (negb (keq (fst p) (fst q)) || outcome_eqb (snd p) (snd q))%bool) ftab in
+  let obs_ok := (negb respects || list_eqb outcome_eqb mems (map Fd h))%bool in
+  let cnt := fun c => count_class keq c real_calls in
+  let count_ok := (negb respects ||
+                   (forallb (fun c => (negb (returns Fd c) || Nat.leb (cnt c) 1)%bool) us
+                    && forallb (fun c => (negb (returns Fd c) || Nat.eqb (cnt c) 1)%bool) h
+                    && forallb (fun x => (negb (returns Fd x) || forallb (fun b => Nat.eqb (cnt b) 1) (inner x))%bool) real_calls))%bool in
+  let calls_ok := (negb respects ||
+                   match irun inner fin keq fuel h with
+                   | ROk (it, _) => list_eqb vals_eqb real_calls (icalls it)
+                   | RErr _ => false
+                   end)%bool in
+  let spec_ok := (obs_ok && calls_ok && count_ok && sames)%bool in
+  (* --- model --- *)
+  let m := rmem_run_with hashr ps inner fin fuel h in
+  let depth := fold_right Nat.max O (map rank h) in
+  let collides := existsb (fun r => existsb (fun b =>
+                     match hashr (key_val (fst r)), hashr (key_val b) with
+                     | Ok x, Ok y => (N.eqb x y && negb (keq (fst r) b))%bool
+                     | _, _ => false
+                     end) (snd r)) rules in
+  let hit := Nat.ltb (List.length fcalls) (List.length h + List.length (flat_map inner h)) in
+  let pan := existsb (fun d => match d with Panic => true | _ => false end) directs in
+  let tag := "memre/" ++ form_tag ps ++ "/res" ++ nat_tag nres ++ "/" ++ fkind ++ "/" ++ variant
+             ++ "/depth" ++ nat_tag depth
+             ++ (if collides then "/inner-collides-with-outer" else "")
+             ++ (if hit then "/hit" else "/nohit")
+             ++ (if respects then "" else "/f-separates-equal-args") ++ (if pan then "/f-panics" else "") in
+  match m with
+  | ROk (st, outs) =>
+      {| v_known := true;
+         v_model_ok := (list_eqb outcome_eqb outs mems && list_eqb vals_eqb (rev (log st)) real_calls && sames)%bool;
+         v_spec_ok := spec_ok;
+         v_guard := (typed && wf)%bool;
+         v_model := L [Sym "res"; L (map outcome_sexp outs); L (map (fun a => L (map val_sexp a)) (rev (log st)))];
+         v_tag := tag ++ (if wf then "" else "/not-wellfounded") |}
+  | RErr EUnsup =>
+      {| v_known := true; v_model_ok := true; v_spec_ok := spec_ok; v_guard := false;
+         v_model := Sym "unsupported"; v_tag := tag ++ "/unsupported-key" |}
+  | RErr EFuel =>
+      (* ill-founded rules (outside the guard): real Go would not have terminated *)
+      {| v_known := typed; v_model_ok := negb wf; v_spec_ok := spec_ok; v_guard := false;
+         v_model := Sym "out-of-fuel"; v_tag := tag ++ "/out-of-fuel" |}
+  | RErr _ =>
+      {| v_known := typed; v_model_ok := false; v_spec_ok := spec_ok; v_guard := false;
+         v_model := Sym "stuck"; v_tag := tag ++ "/stuck" |}
+  end.
+
 (* is the signature one the generator accepts (bucket form: Equal and Hash of the key type) *)
 Definition sig_supported (ps : list ty) : bool :=
   match form_of ps with
@@ -220,6 +317,17 @@ Definition eval18 (e : sexp) : verdict :=
       if String.eqb k "memhist" then
         match parse_sig sg, map_opt parse_args calls, map_opt parse_dm dms, map_opt parse_fcall fcalls with
         | Some (ps, nres), Some cs, Some dms', Some fcs => eval_hist ps nres fkind variant cs dms' fcs
+        | _, _, _, _ => bad_line
+        end
+      else bad_line
+  | L [Sym k; sg; Sym fkind; Sym variant; L us; L _; L outer; L [Sym _; L rules; L directs; L mems; L fcalls]] =>
+      if String.eqb k "memre" then
+        match parse_sig sg, map_opt parse_args us, map_opt parse_rule rules, map_opt parse_idx outer with
+        | Some (ps, nres), Some us', Some rules', Some outer' =>
+            match map_opt parse_outcome directs, map_opt parse_outcome mems, map_opt parse_fcall fcalls with
+            | Some ds, Some ms, Some fcs => eval_re ps nres fkind variant us' rules' outer' ds ms fcs
+            | _, _, _ => bad_line
+            end
         | _, _, _, _ => bad_line
         end
       else bad_line
